@@ -57,6 +57,7 @@ def plan(tier, seed):
         require=['big_histories', 'huge_histories', 'binary_results', 'ite_results', 'function_op_results',
                  'history_results', 'steps', 'cache_entries_checked',
                  'dynamic_histories', 'refused_for_lack_of_room',
+                 'histories_with_changing_variables', 'undeclare_calls',
                  'computed_with_little_room'],
         assumptions=[
             'truth-table model in vf/oracle.py (independent of dd)',
@@ -385,6 +386,14 @@ def _random_history(ctx, spec, rng, names, kind, reg, dynamic):
                 swap=3 if kind == 'bdd' else 0, sift=1, reorder_to=1,
                 dup=1, clone=2 if kind == 'bdd' else 0, tight=3,
                 **{'not': 2})
+    if kind == 'bdd' and not dynamic and spec['sub'] % 4 == 2:
+        # connectives in a manager whose set of variables changes: the
+        # functions are built over all names but one or two, unused
+        # variables (above and between the used ones) are removed while
+        # nodes exist below them, new ones are declared
+        w.build_names = set(rng.sample(names, max(1, len(names) - 2)))
+        menu.update(undeclare=3, declare=2)
+        ctx.counters['histories_with_changing_variables'] += 1
     if dynamic:
         menu.update(rearm=3, clone=0, fop=6 if kind == 'autoref' else 0)
     for k in range(spec['steps']):
